@@ -208,6 +208,7 @@ pub fn run(cfg: &RunCfg) -> Report {
 							api,
 							lent: api == Api::Scoped && rr.chance(1, 2),
 							panic: false,
+							unwind: rr.chance(1, 6),
 						};
 						tc.last_ops.clear();
 						// now and then a member is write-held by a holder that lets go once the
@@ -292,6 +293,7 @@ pub fn run(cfg: &RunCfg) -> Report {
 			}
 		}
 		rep.count("raw_ops", out.stats.raw_ops);
+		rep.count("acquisitions_made_during_an_unwind", out.tstats.in_unwind);
 		if let Some(a) = &out.aborted {
 			rep.inconclusive.push(format!("item {i}: {:?} {}", a, out.deadlock_witness));
 		}
